@@ -102,6 +102,17 @@ func buildDirs(root, repo string) []dirSpec {
 	os.WriteFile(filepath.Join(syn, "zz-broken.yaml"), []byte("apiVersion: v1\nkind: Pod\nmetadata:\n  name: zzbroken\n   labels: [unclosed\n"), 0o644)
 	add("fatal-same-priority", &wm.World{NSs: nss, WLs: wls, ANPs: []wm.ANP{{Name: "a", Prio: 5, Subject: wm.APeer{Namespaces: all}, Ingress: []wm.ARule{{Action: "Deny", Peers: []wm.APeer{{Namespaces: all}}}}},
 		{Name: "b", Prio: 5, Subject: wm.APeer{Namespaces: all}, Ingress: []wm.ARule{{Action: "Allow", Peers: []wm.APeer{{Namespaces: all}}}}}}}, 1, "w1")
+	// many resources (more than any size-derived default in the code base: 120 objects, 40 workloads)
+	big := &wm.World{NSs: nss}
+	for i := 0; i < 40; i++ {
+		ns := []string{"ns1", "ns2", "ns3"}[i%3]
+		app := fmt.Sprintf("app%d", i)
+		big.WLs = append(big.WLs, wm.Workload{Kind: "Deployment", NS: ns, Name: fmt.Sprintf("d%02d", i), Labels: map[string]string{"app": app}, Ports: []wm.CPort{{Name: "http", Num: 8000 + i}}, Replicas: 1})
+		big.Svcs = append(big.Svcs, wm.Svc{NS: ns, Name: fmt.Sprintf("s%02d", i), Sel: map[string]string{"app": app}, Ports: []wm.SvcPort{{Port: 80, Target: wm.TName("http")}}})
+		big.NPs = append(big.NPs, wm.NP{NS: ns, Name: fmt.Sprintf("p%02d", i), PodSel: *wm.ML("app", app), Types: []string{"Ingress"},
+			Ingress: []wm.NPRule{{Peers: []wm.NPPeer{{Pod: wm.ML("app", fmt.Sprintf("app%d", (i+3)%40))}}, Ports: []wm.NPPort{{HasPort: true, Name: "http"}}}}})
+	}
+	add("many-resources", big, 4, "ns2/d01")
 	empty := filepath.Join(root, "empty")
 	os.MkdirAll(empty, 0o755)
 	dirs = append(dirs, dirSpec{name: "empty", path: empty})
@@ -282,7 +293,7 @@ func tail(s string, n int) string {
 }
 
 func Run(r *fw.Run) {
-	r.Rule = "directories (generated worlds written to disk: plain, NetworkPolicy, ANP+BANP, Ingress, exposure-rich, ingress/route worlds; a severe-error, a syntax-error, a fatal-error, an empty, a workload-less and a missing directory; 7 of /repo/tests) x the full product of valid flag combinations: list -o(5) x --exposure(2) x --focusworkload(none, present, absent) x --fail(2) x {-q,-v,neither} x -f(2, onto an existing longer file); diff over ordered directory pairs -o(4) x --fail(2) x {-q,-v,neither} x -f(2); every combination spawns the freshly built k8snetpolicy binary and is compared with the library call for the same options; non-trivial = exit 0 with non-empty stdout; distinct = each combination"
+	r.Rule = "directories (generated worlds written to disk: plain, NetworkPolicy, ANP+BANP, Ingress, exposure-rich, ingress/route worlds, one with 120 resources; a severe-error, a syntax-error, a fatal-error, an empty, a workload-less and a missing directory; 7 of /repo/tests) x the full product of valid flag combinations: list -o(5) x --exposure(2) x --focusworkload(none, present, absent) x --fail(2) x {-q,-v,neither} x -f(2, onto an existing longer file); diff over ordered directory pairs -o(4) x --fail(2) x {-q,-v,neither} x -f(2); every combination spawns the freshly built k8snetpolicy binary and is compared with the library call for the same options; non-trivial = exit 0 with non-empty stdout; distinct = each combination"
 	r.Assume = []string{"stdout only is compared (logs go to stderr)", "when the library call fails only the exit status is compared"}
 	if r.Quick() {
 		r.SetBudget(170 * time.Second)
@@ -322,9 +333,12 @@ func Run(r *fw.Run) {
 		fail := c.Choose(2, "--fail") == 1
 		verb := fw.Pick(c, []string{"", "-q", "-v"}, "verbosity")
 		toFile := c.Choose(2, "-f") == 1
-		if strings.HasPrefix(dirs[d1].name, "tests/onlineboutique") || strings.HasPrefix(dirs[d2].name, "tests/onlineboutique") || strings.HasPrefix(dirs[d1].name, "tests/acs") || strings.HasPrefix(dirs[d2].name, "tests/acs") {
-			if d1 != d2 && !(strings.HasPrefix(dirs[d1].name, "tests/") && strings.HasPrefix(dirs[d2].name, "tests/")) {
-				c.Skip() // the large directories are diffed with themselves and with each other only
+		large := func(n string) bool {
+			return strings.HasPrefix(n, "tests/onlineboutique") || strings.HasPrefix(n, "tests/acs") || n == "many-resources"
+		}
+		if large(dirs[d1].name) || large(dirs[d2].name) {
+			if d1 != d2 && !(large(dirs[d1].name) && large(dirs[d2].name)) && dirs[d1].name != "plain" && dirs[d2].name != "plain" {
+				c.Skip() // the large directories are diffed with themselves, with each other and with the smallest one only
 			}
 		}
 		c.Stride(map[bool]int{true: 8, false: 1}[q])
